@@ -8,6 +8,7 @@ Decides (structure; not wake times under budget partitions):
   3 MONOTONE  every value stored as a wake cycle or assigned to the clock is built from the current cycle/clock with
               non-decreasing operators only; the clock is assigned only from queue keys
   4 SHAPE     the CPU task is `sleep one cycle; one synchronous step` per instruction
+              (a counting while-loop is the same thing only if its counter advances by exactly one per iteration)
 """
 from __future__ import annotations
 
